@@ -30,6 +30,14 @@ CHECKS["C03"] = dict(
     note="Trusted: vsched semantics and virtual clock; in-process RoundTripper for TCP; scope: <=3 acks outstanding, deviation bound 1 (quick) / 2 (thorough) for whole-stack scenarios.",
     design="3/C03")
 
+CHECKS["C02"] = dict(
+    engine="vsched",
+    category="model_checking",
+    technique="stateless model checking of the implementation: deviation-bounded DFS with happens-before caching under a controlled scheduler; wire judged by an independent reference decoder",
+    text="2-3 concurrent emitters (1-2 events each, 0-2 attachments) on one connection in both directions are explored up to the deviation bound: on the server the frames handed to a harness-implemented Engine.IO socket with a slow Send, on the Go client the POST bodies of the real polling transport over an in-process link. A reference decoder written from the v5 protocol requires every packet to be a header followed by exactly its own attachments and every emitter's events to appear in program order. Handler-entry order of events emitted in a row is checked on both sides; the inversion caused by per-packet dispatch goroutines is a known finding keyed by its spawn site, any other inversion fails the check.",
+    note="Trusted: vsched semantics; the in-process link as a settled polling transport; set-up (handshake) runs on the default schedule, deviations are spent after it. Scope: <=3 emitters, bound 4/2 (quick) and 6/4 (thorough). WebSocket/upgrade wire not covered here (see C07).",
+    design="3/C02")
+
 NOT_APPLICABLE = {
 }
 
